@@ -202,7 +202,7 @@ func CheckpointRun(m *MultiBucket, writers, opsEach, keys, restarts int, r *rng.
 						last[key] = cas
 					}
 				}
-				time.Sleep(time.Duration(50+wr.Intn(400)) * time.Microsecond)
+				time.Sleep(time.Duration(wr.Intn(120)) * time.Microsecond)
 			}
 		}(wi, wr)
 	}
